@@ -192,6 +192,13 @@ Lemma get_closest_flat t key K limit :
   0 < K + 2 * limit -> get_closest t key K limit = Ok (flat_scan t key K limit).
 Proof. intro H. apply get_closest_fuel_flat; [exact H|lia]. Qed.
 
+Lemma get_closest_eval_correct t key K limit :
+  get_closest_eval t key K limit = get_closest t key K limit.
+Proof.
+  unfold get_closest_eval. destruct (0 <? paging_step K limit) eqn:E; [|reflexivity].
+  apply Nat.ltb_lt in E. unfold paging_step in E. symmetry. apply get_closest_flat. exact E.
+Qed.
+
 (* with step 0 and a non-empty table no amount of fuel is enough *)
 Lemma paging_spins t key K limit st :
   t_rt t <> [] -> forall fuel,
